@@ -222,6 +222,15 @@ func (cs *ContractSet) LoadContractFile(path, pkgPath string) error {
 			switch first {
 			case "nopanic", "maypanic", "pure", "opaque", "inline", "trusted", "heapfree", "overflow", "loopframe":
 				cur.Flags[first] = true
+				// several flags may share a line ("pure heapfree")
+				for _, w := range strings.Fields(rest) {
+					switch w {
+					case "nopanic", "maypanic", "pure", "opaque", "inline", "trusted", "heapfree", "overflow", "loopframe":
+						cur.Flags[w] = true
+					default:
+						return fmt.Errorf("%s:%d: unexpected %q after flag %s", path, ln, w, first)
+					}
+				}
 				curClause = nil
 				continue
 			case "mode":
